@@ -550,3 +550,45 @@ impl Prop for C03 {
         vec!["mixed-extension-states", "fail-then-repair", "depth>=2", "empty-extension-list"]
     }
 }
+
+/// Fuzz decoder: file contents come verbatim from the fuzzer's bytes.
+pub fn decode(u: &mut arbitrary::Unstructured) -> arbitrary::Result<Value> {
+    fn state(u: &mut arbitrary::Unstructured) -> arbitrary::Result<State> {
+        Ok(match u.int_in_range(0..=5)? {
+            0..=2 => {
+                let len = u.int_in_range(0..=64)?;
+                let bytes = u.bytes(len.min(u.len()))?.to_vec();
+                let variant = match u.int_in_range(0..=2)? {
+                    0 => Variant::Slice,
+                    1 => Variant::Buffer,
+                    _ => Variant::Owned,
+                };
+                State::Present { bytes, variant }
+            }
+            3 | 4 => State::Absent,
+            _ => State::Unreadable(u.int_in_range(0..=KINDS.len() - 1)?),
+        })
+    }
+    let n = u.int_in_range(0..=3)?;
+    let depth = u.int_in_range(0..=4)?;
+    let dv_mode = u.int_in_range(0..=2)?;
+    let init = vec![state(u)?, state(u)?, state(u)?];
+    let mut steps = Vec::new();
+    for _ in 0..u.int_in_range(1..=24)? {
+        steps.push(match u.int_in_range(0..=12)? {
+            0..=3 => Step::Edit { ext: u.int_in_range(0..=2)?, state: state(u)? },
+            4 => Step::SetDefaultMode(u.int_in_range(0..=2)?),
+            _ => Step::Do {
+                kind: match u.int_in_range(0..=4)? {
+                    0 => LoadKind::Load,
+                    1 => LoadKind::LoadOwned,
+                    2 => LoadKind::LoadExpect,
+                    3 => LoadKind::Contains,
+                    _ => LoadKind::GetCached,
+                },
+                level: u.int_in_range(0..=4)?,
+            },
+        });
+    }
+    Ok(to_case(&Case { n, depth, dv_mode, init, steps }))
+}
